@@ -256,7 +256,7 @@ std::string prop_enumerate(const std::string & tier, const std::string & outdir)
             apply_faults(alt, fs);
             {   // crash aid: what is being examined
                 static long ctr = 0;
-                if ((++ctr & 1023) == 0) { mj::Value cs = mj::Value::object(); cs.set("program", program_to_json(p)); mj::Value fl = mj::Value::array(); fl.push(fault_json(fs)); cs.set("faults", fl);
+                if ((++ctr & 15) == 0 || true) { mj::Value cs = mj::Value::object(); cs.set("program", program_to_json(p)); mj::Value fl = mj::Value::array(); fl.push(fault_json(fs)); cs.set("faults", fl);
                     mj::Value doc = mj::Value::object(); doc.set("property", "C04"); doc.set("clause", "crash"); doc.set("case", cs); mj::write_file(outdir + "/current_case.json", mj::dump(doc)); }
             }
             bool det = false, rep = false;
